@@ -3,6 +3,9 @@ package world
 import (
 	"fmt"
 	"net"
+	"time"
+
+	"simrt"
 
 	erpc "github.com/henrylee2cn/erpc/v6"
 )
@@ -207,3 +210,27 @@ func (r *Recorder) PostReadReplyHeader(c erpc.ReadCtx) *erpc.Status {
 }
 func (r *Recorder) PreReadReplyBody(c erpc.ReadCtx) *erpc.Status  { return r.r("PreReadReplyBody", c) }
 func (r *Recorder) PostReadReplyBody(c erpc.ReadCtx) *erpc.Status { return r.r("PostReadReplyBody", c) }
+
+// Slow is a plugin that does nothing but take time (fake-clock sleeps and yields drawn from the run's
+// generator) at the reply-writing and body stages: it widens the windows between a handler's return and the
+// packing of its reply, and between reading a header and its body - as a slow plugin or a contended lock would.
+type Slow struct {
+	Env *Env
+	P   float64
+}
+
+func (s *Slow) Name() string { return "slow" }
+func (s *Slow) delay() *erpc.Status {
+	if s.Env.Gen.Chance(s.P) {
+		if s.Env.Gen.Chance(0.5) {
+			simrt.Sleep(time.Duration(1+s.Env.Gen.Intn(3000)) * time.Microsecond)
+		} else {
+			simrt.YieldN(1 + s.Env.Gen.Intn(40))
+		}
+	}
+	return nil
+}
+func (s *Slow) PreWriteReply(erpc.WriteCtx) *erpc.Status   { return s.delay() }
+func (s *Slow) PostReadCallBody(erpc.ReadCtx) *erpc.Status { return s.delay() }
+func (s *Slow) PostReadPushBody(erpc.ReadCtx) *erpc.Status { return s.delay() }
+func (s *Slow) PreReadReplyBody(erpc.ReadCtx) *erpc.Status { return s.delay() }
